@@ -99,6 +99,8 @@ class GradientEvaluator(Evaluator):
         self.to_evaluate.extend(individual.children)
 
     def evaluate(self, individuals):
+        # evaluate the designs first: a failed evaluation replaces the vector, the neighbours must belong to the final one
+        super().evaluate(individuals)
         for individual in individuals:
             self.add(individual)
         self.run()
